@@ -340,12 +340,18 @@ func runC12(c *Ctx) []Violation {
 		s = sched.New(c.T)
 		s.Policy = policy
 		s.Soft = sched.DrawSoft(c.T, nOwners)
+		if sched.Instrumented && len(s.Soft) > 0 && s.Soft[0].SharedOnly {
+			c.Count("soft-yields.shared-state-files-only", 1)
+		}
 		fns := make([]func(*sched.Task), nOwners)
 		for i := range owners {
 			o := owners[i]
 			fns[i] = func(st *sched.Task) { o.runAll(st.Yield) }
 		}
 		res := s.Run(fns)
+		if n := s.Met(); n > 0 {
+			c.Count("sched.two-tasks-met-at-a-shared-state-statement", int64(n))
+		}
 		for i, r := range res {
 			if r.Panic != "" && owners[i].fail == "" {
 				owners[i].fail = "panic: " + r.Panic
